@@ -14,8 +14,29 @@ satisfiable: exponents modulo the real group order, and a symbolic (tagging) AEA
 -/
 namespace KeepVerif.C41
 
-/-- byte strings; cells are `Nat` so that the symbolic instance can put a whole tag in one cell -/
-abbrev Bytes := List Nat
+/-- A cell of a byte string.  Real data are `byte`s.  The symbolic AEAD instance additionally uses a
+    `tag` cell (the authenticator, carrying key, nonce and message symbolically) and `bad` (the value
+    of a cell after it has been modified: "some other byte", distinct from everything honest). -/
+inductive Cell
+  | byte (n : Nat)
+  | tag (k : Nat) (n m : List (Option Nat))
+  | bad
+  deriving DecidableEq, Repr
+
+def Cell.val : Cell → Option Nat
+  | .byte x => some x
+  | _ => none
+
+def Cell.isByte : Cell → Bool
+  | .byte _ => true
+  | _ => false
+
+def Cell.toNat : Cell → Nat
+  | .byte x => x
+  | _ => 0
+
+/-- byte strings -/
+abbrev Bytes := List Cell
 
 structure DHGroup where
   Pt : Type
@@ -79,16 +100,19 @@ def zmodGroup (N : Nat) : DHGroup where
     show a * (b * p % N) % N = a * b * p % N
     rw [Nat.mul_mod, Nat.mod_mod, ← Nat.mul_mod, Nat.mul_assoc]
 
-/-! ## Instance 2: a symbolic AEAD.  The box is a 16-cell tag (key, nonce digest, length, message
-digest, zeros) followed by the message; opening recomputes the tag. -/
+/-! ## Instance 2: a symbolic AEAD.  The box is a 16-cell authenticator — one `tag` cell carrying
+the key, the nonce and the message symbolically, then 15 zero bytes — followed by the message;
+opening recomputes the authenticator.  A modified cell is `bad`. -/
 
 def csMod : Nat := 2147483647
 
-/-- Horner digest; a change of a single cell changes it (prime modulus) -/
-def digest (l : Bytes) : Nat := l.foldl (fun cs x => (cs * 257 + x + 1) % csMod) 0
+/-- Horner digest of the byte values (only used to print plaintexts compactly) -/
+def digest (l : Bytes) : Nat := l.foldl (fun cs x => (cs * 257 + x.toNat + 1) % csMod) 0
+
+def vals (l : Bytes) : List (Option Nat) := l.map Cell.val
 
 def symTag (k : Nat) (n m : Bytes) : Bytes :=
-  [k, digest n, m.length, digest m] ++ List.replicate 12 0
+  .tag k (vals n) (vals m) :: List.replicate 15 (.byte 0)
 
 def symSeal (k : Nat) (n m : Bytes) : Bytes := symTag k n m ++ m
 
@@ -138,9 +162,9 @@ inductive Mod
   deriving Repr
 
 def applyMod (ct : Bytes) : Mod → Bytes
-  | .xor pos mask => ct.mapIdx fun i x => if i = pos then x ^^^ mask else x
+  | .xor pos mask => if mask = 0 then ct else ct.set pos .bad
   | .trunc n => ct.take n
-  | .extend n => ct ++ List.replicate n 0
+  | .extend n => ct ++ List.replicate n (.byte 0)
 
 /-- o = decrypts to the original, x = decrypts to something else, r = rejected -/
 def verdictChar (orig : Bytes) : Option Bytes → Char
